@@ -198,6 +198,17 @@ impl TlSpec {
             None => f64::INFINITY,
         }
     }
+    /// Is `delay + cycle x (repeats+1)` free of rounding when computed in f32 (product and sum both exactly
+    /// representable)? Only then does the f32 total the library reports coincide with the exact one.
+    pub fn total_is_exact_in_f32(&self) -> bool {
+        match self.repeat.cycles() {
+            Some(n) => {
+                let p = self.cycle as f64 * n as f64;
+                (p as f32) as f64 == p && (self.total() as f32) as f64 == self.total()
+            }
+            None => true,
+        }
+    }
     pub fn defines(&self, field: usize) -> bool {
         self.kfs.iter().any(|k| k.vals.get(field).copied().flatten().is_some())
     }
@@ -268,6 +279,9 @@ impl AnimSpec {
     pub fn total(&self, s: usize) -> f64 {
         self.states[s].iter().map(|t| t.total()).fold(0.0, f64::max)
     }
+    pub fn total_is_exact_in_f32(&self, s: usize) -> bool {
+        self.states[s].iter().all(|t| t.total_is_exact_in_f32())
+    }
 }
 
 // ------------------------------------------------------------------------------------------------
@@ -320,9 +334,20 @@ pub fn gen_easing(r: &mut Rng, o: &GenOpts) -> Eas {
 
 /// Timing from the exact (dyadic) regime of DESIGN §3.2.
 pub fn gen_timing_exact(r: &mut Rng) -> (f32, f32, Rep, bool) {
-    let cycle = *r.pick(&[0.5f32, 1.0, 2.0, 4.0, 1.0, 0.25]);
-    let delay = *r.pick(&[0.0f32, 0.0, 0.25, 0.5, 1.0, 3.0]);
-    let repeat = *r.pick(&[Rep::None, Rep::None, Rep::Times(0), Rep::Times(1), Rep::Times(3), Rep::Infinite]);
+    let cycle = *r.pick(&[0.5f32, 1.0, 2.0, 4.0, 1.0, 0.25, 0.125, 8.0]);
+    let delay = *r.pick(&[0.0f32, 0.0, 0.25, 0.5, 1.0, 3.0, 0.125, 2.0]);
+    let repeat = *r.pick(&[
+        Rep::None,
+        Rep::None,
+        Rep::Times(0),
+        Rep::Times(1),
+        Rep::Times(3),
+        Rep::Infinite,
+        Rep::Times(2),
+        Rep::Times(7),
+        Rep::Infinite,
+        Rep::Times(1000),
+    ]);
     (cycle, delay, repeat, r.chance(1, 3))
 }
 
